@@ -126,6 +126,9 @@ func c20emit(sev Severity, text string) {
 	}
 }
 
+// c20viaTracer is the ONE call site shared by plain lines (nil tracer) and the main lines of tracer submissions.
+func c20viaTracer(tr *ContextTracer, text string) { tr.Warning(text) }
+
 func c20enabled(sev Severity, lvl Severity) bool { return sev >= lvl }
 
 // VerifC20 builds the scenario.
@@ -184,9 +187,13 @@ func VerifC20(p C20Params) *vsched.Scenario {
 							call.sev = 0 // below every level: must not be emitted
 						} else {
 							tr.Info(text + "-a")
-							tr.Warning(text)
+							c20viaTracer(tr, text)
 							tr.Submit()
 						}
+					} else if parts[0] == "N" {
+						// a plain warning logged through the tracer API without a tracer: same call site as the main line of a submission
+						call.sev = WarningLevel
+						c20viaTracer(nil, text)
 					} else {
 						call.sev = c20sev(parts[0])
 						c20emit(call.sev, text)
@@ -371,13 +378,25 @@ func c20judge(p C20Params, s *c20state) {
 			c20fail("enabled-line-is-emitted-exactly-once", "duplicated-or-reordered", "producer %d: unexpected extra/reordered line %q handed to the adapter\n%s", pi, got[gi].text, c20describe(s))
 		}
 	}
-	// tracer submissions carry all their collected lines
-	for _, d := range s.delivered {
-		for _, c := range s.calls {
-			if c.tracer && c.text == d.text {
-				if len(d.tracer) != 1 || d.tracer[0] != c.text+"-a" {
-					c20fail("tracer-submission-carries-all-lines", "lines-missing", "tracer submission %q reached the adapter with collected lines %v\n%s", c.text, d.tracer, c20describe(s))
+	// tracer submissions carry all their collected lines, and are never merged with plain lines of the same text
+	if p.Shutdown == -1 && p.Change == "" {
+		withTracer, wantTracer := map[string]int{}, map[string]int{}
+		for _, d := range s.delivered {
+			if len(d.tracer) > 0 {
+				withTracer[d.text] += int(d.dup) + 1
+				if len(d.tracer) != 1 || d.tracer[0] != d.text+"-a" {
+					c20fail("tracer-submission-carries-all-lines", "lines-missing", "tracer submission %q reached the adapter with collected lines %v\n%s", d.text, d.tracer, c20describe(s))
 				}
+			}
+		}
+		for _, c := range s.calls {
+			if c.tracer && c.sev != 0 {
+				wantTracer[c.text]++
+			}
+		}
+		for t, n := range wantTracer {
+			if withTracer[t] != n {
+				c20fail("tracer-submission-carries-all-lines", "submission-merged-or-lost", "%d tracer submissions with main line %q were made, %d lines with collected trace lines reached the adapter\n%s", n, t, withTracer[t], c20describe(s))
 			}
 		}
 	}
